@@ -16,7 +16,98 @@ def _c20(tier):
     return [{"engine": "c20", "shards": 8, "args": {"cases": 40000 if tier == "thorough" else 3000}}]
 
 
+def _e1(plan_quick, plan_thorough, extra=None):
+    """plan = [(bias, cases per shard)]"""
+    def f(tier):
+        plan = plan_thorough if tier == "thorough" else plan_quick
+        engines = [{"engine": "e1", "shards": 16, "args": {"bias": b, "cases": n}} for b, n in plan]
+        if extra:
+            engines += extra(tier)
+        return engines
+    return f
+
+
+E1_RULE = ("case = one seeded history of 30-150 steps over 2-4 users and 4-10 channels against the real Gatekeeper/Watcher/Responder/Carrier/DBM/InternalAPI/"
+           "ChainMonitor+SpvClient (SimChain as block source, SimNode behind bitcoincore_rpc::Client): register/renew, add (valid, garbled, "
+           "authenticated-but-not-a-transaction, trailing bytes, valid for another dispute, empty; sizes around every slot boundary; shared locators; "
+           "updates; resubmission in every lifecycle state), get_appointment / get_subscription_info with good and bad signatures, mined blocks "
+           "(disputes, penalties in the same / a later block, several per block), multi-block polls, reorgs (depth 1..8, up to 100 with bias 'chain'), "
+           "advances of up to 110 blocks, scripted node verdicts (-25 -26 -27 -22 other, garbage), txindex on/off, restarts. After EVERY step the "
+           "TowerModel monitors compare replies, sqlite rows, private-API answers and the node RPC log with the model. ")
+
+E1_ASSUME = [
+    "the outside world is simulated at the tower's two real boundaries (BlockSource, bitcoind JSON-RPC); histories a real chain cannot produce are not generated",
+    "locator collisions (two transaction ids sharing 16 bytes) cannot be generated and are not covered",
+    "sequential histories only (one request or block event at a time); interleavings are the business of C10/C11",
+    "the in-process bootstrap is a copy of main.rs's sequence (the real binary is exercised by the e2e engine where available)",
+    "an 'already in chain' (-27) verdict and a garbage node reply are not classified by the statements: several outcomes are tolerated there",
+]
+
 CHECKS = {
+    "C01": {
+        "engines": _e1([("mixed", 150), ("chain", 50)], [("mixed", 3000), ("chain", 1000), ("expiry", 500)]),
+        "level": "exploration",
+        "rule": E1_RULE + "C01 oracle: every watched appointment whose dispute is delivered in a block (or sits in the six-block window at acceptance) creates an "
+                "obligation: penalty already known to the node / submitted inside the delivery window; verdict accept => reported dispute_responded with "
+                "exactly that dispute and penalty from then on; undecryptable or rejected => only that appointment disappears. non-trivial = history with "
+                ">= 1 obligation; distinct = distinct operation lists.",
+        "assumptions": E1_ASSUME,
+    },
+    "C02": {
+        "engines": _e1([("mixed", 150), ("chain", 50)], [("mixed", 3000), ("chain", 1000), ("expiry", 500)]),
+        "level": "exploration",
+        "rule": E1_RULE + "C02 oracle: every sendrawtransaction in the RPC log must be justified at its position by the model (penalty of an appointment being "
+                "triggered in that window, penalty of a responded appointment, dispute only for a responded appointment whose confirming block was just "
+                "disconnected; never for dropped / purged / untriggered ones); dispute_responded only when backed by a send or by the node having it. "
+                "non-trivial = history with >= 1 broadcast.",
+        "assumptions": E1_ASSUME,
+    },
+    "C04": {
+        "engines": _e1([("chain", 130), ("mixed", 50)], [("chain", 2500), ("mixed", 1000)]),
+        "level": "exploration",
+        "rule": E1_RULE + "C04 oracle per responded appointment: (a) dispute+penalty re-submitted by the end of the first block connected after its confirming "
+                "block was disconnected; (b) while unconfirmed the tip never gets 12 blocks above the last submission; (c) after every completed poll a "
+                "tracker row with confirmed=1 at height h has its penalty in the delivered block at h; (d) it disappears with a refund exactly when the "
+                "penalty is 100 deep; (e) rejected re-submission => dropped without refund. non-trivial = history exercising at least one of (a)-(d).",
+        "assumptions": E1_ASSUME,
+    },
+    "C06": {
+        "engines": _e1([("auth", 150), ("mixed", 50)], [("auth", 3000), ("mixed", 1500)]),
+        "level": "exploration",
+        "rule": E1_RULE + "C06 oracle: a request succeeds iff (by construction) its signature is a correct one by a registered, unexpired user over exactly the "
+                "request's message (mutations: other message, truncated, one character changed, non-zbase32, empty, unregistered key); every failure is an "
+                "authentication error and leaves the database byte-identical; after every request all records of every other user are unchanged; "
+                "get_subscription_info lists only the signer's locators. non-trivial = history with >= 1 rejected signature.",
+        "assumptions": E1_ASSUME,
+    },
+    "C08": {
+        "engines": _e1([("mixed", 150), ("expiry", 40)], [("mixed", 3000), ("expiry", 1000), ("chain", 500)]),
+        "level": "exploration",
+        "rule": E1_RULE + "C08 oracle: every successful register/add reply is verified with the client-side verifier (RegistrationReceipt::verify, "
+                "AppointmentReceipt::verify) under the tower id, rebuilt from exactly the returned fields; start_block == model height (also after "
+                "disconnections); slots/expiry equal the users row; stored row and get_appointment read-back equal the last accepted version byte for byte. "
+                "non-trivial = history with >= 1 receipt verified.",
+        "assumptions": E1_ASSUME,
+    },
+    "C09": {
+        "engines": _e1([("expiry", 150), ("mixed", 50)], [("expiry", 3000), ("mixed", 1500)]),
+        "level": "exploration",
+        "rule": E1_RULE + "C09 oracle: configurations (slots, duration, grace) from small grids incl. 1/0; add/get succeed iff height < expiry and the error "
+                "states the expiry; registration = (height, height+duration), renewal = +duration / +slots; the user row with all appointments and trackers "
+                "vanishes at the first delivered block with height >= expiry + grace, not earlier, others untouched, also across reorgs and multi-block "
+                "polls. non-trivial = history with >= 1 expiry error, renewal or purge.",
+        "assumptions": E1_ASSUME + ["u32 overflow corners of subscription arithmetic are outside the stated quantifier and not generated"],
+    },
+
+    "C07": {
+        "engines": _e1([("mixed", 150), ("expiry", 40)], [("mixed", 3000), ("expiry", 1000), ("chain", 500)], lambda tier: [{"engine": "c07f", "shards": 1}]),
+        "level": "exploration",
+        "exhaustive": "the slot formula is evaluated for EVERY blob length 0..4 MiB (gRPC transport limit) against integer arithmetic; the ledger histories are sampled",
+        "rule": E1_RULE + "C07 oracle: ledger granted = available + occupied (max(1, ceil(len/2048)) per held row) + forfeited after every step, with "
+                "'available' read three ways that must agree: the reply, get_user (memory), the users row (disk); acceptance only if the balance stays >= 0; "
+                "replacement moves the balance by the difference; refunds only at 100-confirmation completion. non-trivial = history with receipts and ledger checks.",
+        "assumptions": E1_ASSUME,
+    },
     "C17": {
         "engines": _c17,
         "level": "exploration",
